@@ -33,8 +33,20 @@ BUDGET = {'quick': 3200, 'thorough': 128000}
 
 PROFILE = {
     'weights': {'restart': 8, 'reboot': 2, 'down': 3, 'up': 2, 'idg': 2,
-                'cycle': 8, 'app': 12, 'state': 5, 'downseq': 2, 'allocs': 2, 'partsched': 3, 'adv': 3, 'leasesched': 4},
-    'force': ['restart', 'state', 'partsched', 'leasesched'],
+                'cycle': 8, 'app': 12, 'state': 5, 'downseq': 2},
+    'force': ['restart', 'state'],
+    'pre': (4, 12),
+    'min_servers': 2,
+    'max_parts': 1,
+}
+
+# a third of the histories: allocation changes and partition reboot-schedule
+# changes (masters read those only when they start) before the restart
+PROFILE_CONFIG = {
+    'weights': {'restart': 8, 'reboot': 2, 'down': 3, 'up': 2, 'idg': 2,
+                'cycle': 8, 'app': 12, 'state': 3, 'downseq': 2, 'allocs': 3,
+                'partsched': 3, 'adv': 3, 'leasesched': 4},
+    'force': ['restart', 'partsched', 'leasesched'],
     'pre': (4, 12),
     'min_servers': 2,
     'max_parts': 2,
@@ -42,7 +54,10 @@ PROFILE = {
 
 
 def strategy(tier):
-    return gen.master_case(PROFILE)
+    from hypothesis import strategies as st
+    plain = gen.master_case(PROFILE)
+    config = gen.master_case(PROFILE_CONFIG)
+    return st.integers(0, 2).flatmap(lambda k: config if k == 0 else plain)
 
 
 def execute(case, stats):
